@@ -67,12 +67,12 @@ type c14node struct {
 }
 
 type c14state struct {
-	mu         sync.Mutex
-	problems   [][2]string
-	execs      int64
-	entries    int64
-	unprep     int64
-	newGenExec int64
+	mu          sync.Mutex
+	problems    [][2]string
+	execs       int64
+	entries     int64
+	unprep      int64
+	newGenExec  int64
 	ownDeadline int64
 }
 
